@@ -113,12 +113,16 @@ def gen_value(w, r, t, depth=0):
         for _ in range(k):
             x = gen_value(w, r, subs[0], depth + 1)
             d[R.key(R.canon(x, subs[0], w_uuid_of(w)))] = x
+            for y in _variant_twins(r, subs[0], x):
+                d[R.key(R.canon(y, subs[0], w_uuid_of(w)))] = y
         return {"set": [d[kk] for kk in sorted(d)]}
     if n == "mapping":
         d = {}
         for _ in range(k):
             kx = gen_value(w, r, subs[0], depth + 1)
             d[R.key(R.canon(kx, subs[0], w_uuid_of(w)))] = [kx, gen_value(w, r, subs[1], depth + 1)]
+            for ky in _variant_twins(r, subs[0], kx):
+                d[R.key(R.canon(ky, subs[0], w_uuid_of(w)))] = [ky, gen_value(w, r, subs[1], depth + 1)]
         return {"map": [d[kk] for kk in sorted(d)]}
     if n == "tuple":
         return {"tuple": [gen_value(w, r, st, depth + 1) for st in subs]}
@@ -126,6 +130,27 @@ def gen_value(w, r, t, depth=0):
         i = r.randrange(len(subs))
         return {"variant": [i, gen_value(w, r, subs[i], depth + 1)]}
     raise R.RefError("cannot generate value of unknown type %s" % n)
+
+
+def _variant_twins(r, t, cv):
+    """For a variant member / key: the SAME payload under another alternative whose type takes
+    it too (variant<uint8_t,int64_t>: (0, 7) and (1, 7)) - different values that a careless
+    equality would merge."""
+    if t[0] != "variant" or r.random() > 0.5:
+        return []
+    i, v = cv["variant"]
+    out = []
+    for j, st in enumerate(t[1]):
+        if j == i:
+            continue
+        try:
+            R.encode(v, st)
+        except Exception:  # noqa
+            continue
+        if st[0] in R.INTS and t[1][i][0] in R.INTS or st == t[1][i]:
+            out.append({"variant": [j, v]})
+            break
+    return out
 
 
 def gen_ref(w, r):
